@@ -9,6 +9,8 @@ import (
 func TestC01(t *testing.T) { runRapid(t, "C01") }
 func TestC02(t *testing.T) { runRapid(t, "C02") }
 func TestC13(t *testing.T) { runRapid(t, "C13") }
+func TestC17(t *testing.T) { runRapid(t, "C17") }
+func TestC18(t *testing.T) { runRapid(t, "C18") }
 func TestC14(t *testing.T) { runRapid(t, "C14") }
 func TestC04(t *testing.T) { runRapid(t, "C04") }
 func TestC08(t *testing.T) { runRapid(t, "C08") }
